@@ -3350,7 +3350,10 @@ class DNSProtocol(DNSMixin, protocol.Protocol):
         self.buffer += data
 
         while self.buffer:
-            if self.length is None and len(self.buffer) >= 2:
+            if self.length is None:
+                if len(self.buffer) < 2:
+                    # Only part of the length prefix has arrived so far.
+                    break
                 self.length = struct.unpack("!H", self.buffer[:2])[0]
                 self.buffer = self.buffer[2:]
 
